@@ -3,5 +3,6 @@
 #include "sweep_core.hpp"
 #include "sweep_exprs.hpp"
 #include "sweep_rest.hpp"
+#include "sweep_neighbours.hpp"
 #include "gen/factory_list.hpp"
 #endif
